@@ -283,8 +283,26 @@ const char* excClass(const std::exception& e)
 
 struct Member { std::string name; int flags; std::vector<std::string> args; std::vector<std::string> cons; };
 
+// "split:<hex>" : appl::make_arg_array on the string, both constructors
+std::string run_split(const std::string& text)
+{
+   std::string res = "ok";
+   auto const a1 = celma::appl::make_arg_array(text);
+   auto const a2 = celma::appl::make_arg_array(text, "prg");
+   std::string words;
+   for (int i = 0; i < a1.mArgC; ++i) words += (i ? "," : "") + vf::hex(std::string(a1.mpArgV[i]));
+   bool same = (a2.mArgC == a1.mArgC + 1) && (std::string(a2.mpArgV[0]) == "prg")
+               && (a1.mpArgV[a1.mArgC] == nullptr) && (a2.mpArgV[a2.mArgC] == nullptr);
+   for (int i = 0; same && i < a1.mArgC; ++i) same = std::string(a1.mpArgV[i]) == std::string(a2.mpArgV[i + 1]);
+   res += " words=" + (words.empty() ? std::string("-") : words);
+   if (!same) res += " CONSTRUCTORS-DIFFER";
+   return res + " ## argc=" + std::to_string(a1.mArgC);
+}
+
 std::string run_case(const std::vector<std::string>& w)
 {
+   for (size_t t = 1; t < w.size(); ++t)
+      if (w[t].rfind("split:", 0) == 0) return run_split(vf::unhexs(w[t].substr(6)));
    Slots S;
    std::vector<Member> members;
    bool useGroups = false;
